@@ -847,6 +847,185 @@ theorem storage_minmax_spec {st : Storage} (hw : st.WellFormed) (hv : st.values 
       exact List.length_pos_of_mem hvr
     exact minmaxDense_spec hm hn hrow ch hc
 
+/-- the chunks in which the integrality test reads a well-formed array contain
+exactly the stored values -/
+theorem readChunks_mem {st : Storage} (hw : st.WellFormed) (v : Rat) :
+    v ∈ st.readChunks.flatten ↔ v ∈ st.values := by
+  cases st with
+  | sparse d ch =>
+    cases ch with
+    | none =>
+      simp only [Storage.readChunks, Storage.values]
+      cases d <;> simp
+    | some c => exact (sparseRuns_spec (hw c rfl)).2.2 v
+  | dense m nCols ch =>
+    obtain ⟨hrow, hc⟩ := hw
+    cases ch with
+    | some c => exact (denseTiles_spec hrow (hc c rfl).1 (hc c rfl).2).2.2 v
+    | none =>
+      simp only [Storage.readChunks, Storage.values]
+      split
+      next h =>
+        have : m.flatten = [] := by
+          rcases h with h | h
+          · rw [List.length_eq_zero_iff.1 h]; rfl
+          · rw [List.flatten_eq_nil_iff]
+            intro row hr
+            exact List.length_eq_zero_iff.1 (by rw [hrow row hr, h])
+        simp [this]
+      next => simp
+
+/-- when nothing is stored the only bounds `minmax` can return are `(0, 0)`
+(empty CSR / CSC `data`); an empty dense matrix has no min / max -/
+theorem storage_minmax_empty {st : Storage} (hw : st.WellFormed) (hv : st.values = [])
+    {mn mx : Rat} (hmu : st.minmax = .ok (some (mn, mx))) : mn = 0 ∧ mx = 0 := by
+  cases st with
+  | sparse dd ch =>
+    simp only [Storage.values] at hv
+    subst hv
+    simp only [Storage.minmax, minmaxSparse, List.isEmpty_nil, if_true] at hmu
+    cases hmu
+    exact ⟨rfl, rfl⟩
+  | dense m nCols ch =>
+    exfalso
+    simp only [Storage.values] at hv
+    simp only [Storage.minmax, minmaxDense] at hmu
+    cases ch with
+    | none =>
+      rw [hv] at hmu
+      simp [runMinMax, listMin] at hmu
+    | some c =>
+      simp only [] at hmu
+      have hc := hw.2 c rfl
+      obtain ⟨d1, d2⟩ := doubleChunk2_ge (m.length * nCols) 64 c
+      obtain ⟨s1, _, s3⟩ := denseTiles_spec
+        (cs := doubleChunk2 (m.length * nCols) 64 c) hw.1
+        (Nat.le_trans hc.1 d1) (Nat.le_trans hc.2 d2)
+      -- no tile can exist: a tile would be non-empty and contain an entry
+      cases htl : denseTiles m m.length nCols (doubleChunk2 (m.length * nCols) 64 c) with
+      | nil => rw [htl] at hmu; simp [runMinMax] at hmu
+      | cons t ts =>
+        have hne := s1 t (by rw [htl]; simp)
+        obtain ⟨x, hx⟩ := List.exists_mem_of_ne_nil _ hne
+        have : x ∈ m.flatten := (s3 x).1 (by rw [htl]; simp [hx])
+        rw [hv] at this
+        simp at this
+
+/-- the bounds `_validate_h5ad` reads from a well-formed layer bound all values,
+and their rounded values lie in any integer interval containing all rounded
+values (and 0) -/
+theorem storage_minmax_range {st : Storage} (hw : st.WellFormed) {mn mx : Rat}
+    (hmm : st.minmax = .ok (some (mn, mx))) :
+    (∀ v ∈ st.values, mn ≤ v ∧ v ≤ mx) ∧
+    ∀ a b : Int, a ≤ 0 → 0 ≤ b → (∀ v ∈ st.values, a ≤ roundHalfEven v ∧ roundHalfEven v ≤ b) →
+      a ≤ roundHalfEven mn ∧ roundHalfEven mx ≤ b := by
+  by_cases hv : st.values = []
+  · obtain ⟨rfl, rfl⟩ := storage_minmax_empty hw hv hmm
+    refine ⟨by rw [hv]; simp, ?_⟩
+    intro a b ha hb _
+    have : roundHalfEven 0 = 0 := round_int 0
+    omega
+  · obtain ⟨mn', mx', hmm', hmn, hmx, hb⟩ := storage_minmax_spec hw hv
+    rw [hmm] at hmm'
+    cases hmm'
+    exact ⟨hb, fun a b _ _ h => ⟨(h mn hmn).1, (h mx hmx).2⟩⟩
+
+/-! ### comparison in a floating-point type: off by at most one -/
+
+/-- in float32 and float64 every lower limit of the ladder is exact, and every
+upper limit is exact or rounded up by one -/
+theorem ladder_limits_float :
+    Generated.intLadder.all (fun r => [24, 53].all (fun p =>
+      decide (toFloatBits p r.2.1 = (r.2.1 : Rat)) &&
+      (decide (toFloatBits p r.2.2 = (r.2.2 : Rat)) ||
+       decide (toFloatBits p r.2.2 = ((r.2.2 + 1 : Int) : Rat))))) = true := by
+  decide +kernel
+
+theorem seenLimitMode_ladder (mode : CompareMode) {fb : Option Nat}
+    (hfb : fb = none ∨ fb = some 24 ∨ fb = some 53) {r : Rung} (hr : r ∈ Generated.intLadder) :
+    seenLimitMode mode fb r.2.1 = (r.2.1 : Rat) ∧
+    (seenLimitMode mode fb r.2.2 = (r.2.2 : Rat) ∨
+      seenLimitMode mode fb r.2.2 = ((r.2.2 + 1 : Int) : Rat)) := by
+  have h := List.all_eq_true.1 ladder_limits_float r hr
+  simp only [List.all_cons, List.all_nil, Bool.and_true, Bool.and_eq_true, Bool.or_eq_true,
+    decide_eq_true_eq] at h
+  obtain ⟨⟨a1, a2⟩, ⟨b1, b2⟩⟩ := h
+  rcases hfb with rfl | rfl | rfl
+  · exact ⟨rfl, Or.inl rfl⟩
+  · cases mode
+    · exact ⟨a1, a2⟩
+    · exact ⟨b1, b2⟩
+    · exact ⟨rfl, Or.inl rfl⟩
+  · cases mode
+    · exact ⟨b1, b2⟩
+    · exact ⟨b1, b2⟩
+    · exact ⟨rfl, Or.inl rfl⟩
+
+theorem rungAcceptsMode_imp (mode : CompareMode) {fb : Option Nat}
+    (hfb : fb = none ∨ fb = some 24 ∨ fb = some 53) {r : Rung} (hr : r ∈ Generated.intLadder)
+    {lo hi : Int} (h : rungAcceptsMode mode fb lo hi r = true) :
+    r.2.1 ≤ lo ∧ hi ≤ r.2.2 + 1 := by
+  obtain ⟨h1, h2⟩ := seenLimitMode_ladder mode hfb hr
+  unfold rungAcceptsMode at h
+  simp only [Bool.and_eq_true, decide_eq_true_eq] at h
+  obtain ⟨ha, hb⟩ := h
+  rw [h1] at ha
+  have ha' : r.2.1 ≤ lo := by exact_mod_cast ha
+  refine ⟨ha', ?_⟩
+  rcases h2 with h2 | h2
+  · rw [h2] at hb
+    have : hi ≤ r.2.2 := by exact_mod_cast hb
+    omega
+  · rw [h2] at hb
+    exact_mod_cast hb
+
+theorem rungAcceptsMode_of_exact (mode : CompareMode) {fb : Option Nat}
+    (hfb : fb = none ∨ fb = some 24 ∨ fb = some 53) {r : Rung} (hr : r ∈ Generated.intLadder)
+    {lo hi : Int} (h : r.2.1 ≤ lo ∧ hi ≤ r.2.2) :
+    rungAcceptsMode mode fb lo hi r = true := by
+  obtain ⟨h1, h2⟩ := seenLimitMode_ladder mode hfb hr
+  unfold rungAcceptsMode
+  simp only [Bool.and_eq_true, decide_eq_true_eq]
+  rw [h1]
+  refine ⟨by exact_mod_cast h.1, ?_⟩
+  rcases h2 with h2 | h2
+  · rw [h2]; exact_mod_cast h.2
+  · rw [h2]
+    have : hi ≤ r.2.2 + 1 := by omega
+    exact_mod_cast this
+
+theorem ladder_exists_mode (mode : CompareMode) {fb : Option Nat}
+    (hfb : fb = none ∨ fb = some 24 ∨ fb = some 53) (lo hi : Int)
+    (h : (0 ≤ lo ∧ hi ≤ 18446744073709551615) ∨
+      (-9223372036854775808 ≤ lo ∧ hi ≤ 9223372036854775807)) :
+    ∃ r, Generated.intLadder.find? (rungAcceptsMode mode fb lo hi) = some r := by
+  rw [← Option.isSome_iff_exists, List.find?_isSome]
+  rcases h with h | h
+  · exact ⟨("uint64", 0, 18446744073709551615), by simp [Generated.intLadder],
+      rungAcceptsMode_of_exact mode hfb (by simp [Generated.intLadder]) h⟩
+  · refine ⟨("int64", -9223372036854775808, 9223372036854775807), by simp [Generated.intLadder], ?_⟩
+    apply rungAcceptsMode_of_exact mode hfb (by simp [Generated.intLadder])
+    exact h
+
+/-- whatever the comparison mode, a value between the bounds misses the chosen
+rung only by being exactly one above its upper limit -/
+theorem find_fits_mode (mode : CompareMode) {fb : Option Nat}
+    (hfb : fb = none ∨ fb = some 24 ∨ fb = some 53) {r : Rung} {mn mx v : Rat}
+    (h : Generated.intLadder.find?
+      (rungAcceptsMode mode fb (roundHalfEven mn) (roundHalfEven mx)) = some r)
+    (h1 : mn ≤ v) (h2 : v ≤ mx) :
+    castTo r v = (if roundHalfEven v = r.2.2 + 1 then none else some (roundHalfEven v)) ∧
+    r.2.1 ≤ roundHalfEven v ∧ roundHalfEven v ≤ r.2.2 + 1 := by
+  obtain ⟨ha, hb⟩ := rungAcceptsMode_imp mode hfb (List.mem_of_find?_eq_some h) (List.find?_some h)
+  have a := round_mono h1
+  have b := round_mono h2
+  refine ⟨?_, by omega, by omega⟩
+  unfold castTo
+  simp only []
+  by_cases hc : roundHalfEven v = r.2.2 + 1
+  · rw [if_pos hc, if_neg (by omega)]
+  · rw [if_neg hc, if_pos ⟨by omega, by omega⟩]
+
 /-! ### a small example input -/
 
 /-- example input used by the non-vacuity examples of `CTM.Props.C16` -/
